@@ -34,7 +34,9 @@ def snap(t):
 def groups():
     from rzilcompiler.Transformer.ValueType import VTGroup
 
-    return [VTGroup.PURE, VTGroup.PURE | VTGroup.CONST, VTGroup.PURE | VTGroup.HYBRID_LVAR]
+    # PURE | BOOL is the type of the result of a comparison or logical operator (a truth value is an operand type
+    # of integer expressions: `(a < b) - 1`); ARCH_LONG marks the types of the `long` keywords
+    return [VTGroup.PURE, VTGroup.PURE | VTGroup.CONST, VTGroup.PURE | VTGroup.HYBRID_LVAR, VTGroup.PURE | VTGroup.BOOL, VTGroup.PURE | VTGroup.BOOL | VTGroup.CONST, VTGroup.PURE | VTGroup.ARCH_LONG]
 
 
 def check_pair(sa, wa, sb, wb, gi):
@@ -152,7 +154,7 @@ def run(ctx):
         widths = list(range(1, 2049))
         ngroups = 1  # the full width square with the PURE group; the group dimension is covered on QUICK_WIDTHS below
     items = [(sa, wa, gi, widths) for wa in widths for sa in (False, True) for gi in range(ngroups)]
-    items += [(sa, wa, gi, GROUP_WIDTHS) for wa in GROUP_WIDTHS for sa in (False, True) for gi in (1, 2)]
+    items += [(sa, wa, gi, GROUP_WIDTHS) for wa in GROUP_WIDTHS for sa in (False, True) for gi in (1, 2, 3, 4, 5)]
     res = core.pmap(work, items, seed=ctx.seed)
     total = sum(r[0] for r in res)
     nontrivial = sum(r[1] for r in res)
@@ -176,7 +178,7 @@ def run(ctx):
             "evaluations": total + len(items),
             "distinct_nontrivial": nontrivial,
             "rule": "every ordered pair ((signed,width),(signed,width)) with width in the tier's width set "
-            "(quick: %d widths = 1..130 and the wide register/vector widths; thorough: all widths 1..2048; both tiers add the CONST and HYBRID_LVAR group flags on 22 widths) "
+            "(quick: %d widths = 1..130 and the wide register/vector widths; thorough: all widths 1..2048; both tiers add the CONST, HYBRID_LVAR, BOOL, BOOL|CONST and ARCH_LONG group flags on 22 widths) "
             "through the real c11_cast, plus promoted_type on every single type; non-trivial = the two types differ; "
             "clauses: totality, table, both results equal, determinism, symmetry, arguments unchanged, no aliasing" % len(QUICK_WIDTHS),
             "exhaustive": True,
@@ -184,7 +186,7 @@ def run(ctx):
             "pairs": total,
             "promoted_type_calls": len(items),
         },
-        assumptions=["rank = bit width (as the property states)", "group flags other than PURE/CONST/HYBRID_LVAR are not operand types of integer expressions"],
+        assumptions=["rank = bit width (as the property states)", "group flags other than PURE/CONST/HYBRID_LVAR/BOOL/ARCH_LONG are not operand types of integer expressions"],
     )
 
 
